@@ -891,6 +891,14 @@ def math_interval(op, a, b):
                 return Dom(0, hi)
             return None
         if op == "BitAnd":
+            if a.lo >= 0 and b.lo == b.hi and b.lo > 0 and a.hi != INF:
+                m_ = int(b.lo)
+                low = (m_ & -m_).bit_length() - 1             # index of the lowest set bit of the mask
+                if m_ == ((1 << m_.bit_length()) - 1) ^ ((1 << low) - 1) and int(a.hi) < (1 << m_.bit_length()):
+                    # contiguous mask reaching the top of the value's range: x & m = (x >> low) << low, monotone in x
+                    return Dom(int(a.lo) & m_, int(a.hi) & m_)
+                if low == 0 and m_ == (1 << m_.bit_length()) - 1 and (int(a.lo) >> m_.bit_length()) == (int(a.hi) >> m_.bit_length()):
+                    return Dom(int(a.lo) & m_, int(a.hi) & m_)       # low-bit mask over a range inside one block
             if a.lo >= 0 and b.lo >= 0:
                 return Dom(0, min(a.hi, b.hi))
             if b.lo >= 0:
@@ -904,6 +912,8 @@ def math_interval(op, a, b):
                 return Dom(0, (1 << bits) - 1)
             return None
         if op == "Shr":
+            if a.lo >= 0 and b.lo == b.hi and 0 <= b.lo < 128 and a.hi != INF:
+                return Dom(int(a.lo) >> int(b.lo), int(a.hi) >> int(b.lo))
             if a.lo >= 0 and b.lo >= 0:
                 return Dom(0, a.hi)
             return None
